@@ -313,6 +313,10 @@ func runAck(c *core.Ctx) {
 					res := callee.Signature.Results()
 					if res.Len() > 0 && an.IsErrorType(res.At(res.Len()-1).Type()) {
 						what = "helper " + c.P.FuncName(callee)
+						// a helper that hands out the error of its BlobCreate with a digest: ‘already exists’ is no failure
+						if returnsCreateErr(r, callee) != nil {
+							existsOK = true
+						}
 					}
 				}
 			}
@@ -350,6 +354,13 @@ func runAck(c *core.Ctx) {
 					switch x := in.(type) {
 					case *ssa.Call:
 						if st, ok := writeHeaderStatus(x); ok && st >= 200 && st < 300 {
+							// the failure of a helper makes the acknowledgement of a push (201) false; a handler that
+							// acknowledges a removal (202) isolates the failure of its auxiliary updates on purpose — in
+							// the code base as an immediately invoked closure whose error is only logged — and is held
+							// to its own commit calls
+							if strings.HasPrefix(what, "helper ") && st != 201 {
+								break
+							}
 							bad = fmt.Sprintf("status %d at %s is reachable although the error of %s at %s %s", st, c.P.Pos(x.Pos()), what, c.P.Pos(call.Pos()), how)
 						}
 					case *ssa.Return:
@@ -450,12 +461,29 @@ func runVerify(c *core.Ctx) {
 							all = false
 							break
 						}
-						cr, _ := an.CallOf(an.Origin(cc.Args[pi]))
-						if cr == nil || !isBlobCreate(r, cr) {
-							all = false
-							break
+						withDigest := func(v ssa.Value) bool {
+							cr, _ := an.CallOf(an.Origin(v))
+							if cr == nil || !isBlobCreate(r, cr) {
+								return false
+							}
+							ds, okd := withDigestArgs(r, cr)
+							return okd && len(ds) > 0
 						}
-						if ds, okd := withDigestArgs(r, cr); !okd || len(ds) == 0 {
+						if withDigest(cc.Args[pi]) {
+							continue
+						}
+						// the session comes out of a helper every return of which hands out a session created with a digest
+						hr := an.HelperReturns(an.Origin(cc.Args[pi]), func(h *ssa.Function) bool { return core.FuncPkgPath(h) == c.P.Module })
+						okH := len(hr) > 0
+						for _, x := range hr {
+							if an.IsNilConst(an.Strip(x.Val)) {
+								continue
+							}
+							if !withDigest(x.Val) {
+								okH = false
+							}
+						}
+						if !okH {
 							all = false
 							break
 						}
@@ -473,6 +501,21 @@ func runVerify(c *core.Ctx) {
 			}
 		})
 	}
+}
+
+// startEqSize: the comparison is ‘integer parsed from a string == the size parameter’.
+func startEqSize(v *ssa.BinOp, sizeParam *ssa.Parameter) bool {
+	if v.Op != token.EQL {
+		return false
+	}
+	for _, pair := range [][2]ssa.Value{{v.X, v.Y}, {v.Y, v.X}} {
+		if pair[0] == ssa.Value(sizeParam) {
+			if pc, idx := an.CallOf(pair[1]); pc != nil && idx == 0 && (an.IsFunc(pc, "strconv", "ParseInt") || an.IsFunc(pc, "strconv", "ParseUint") || an.IsFunc(pc, "strconv", "Atoi")) {
+				return true
+			}
+		}
+	}
+	return false
 }
 
 // mustPassBefore: starting at block b, every path reaches an instruction satisfying goal before one satisfying stop.
@@ -818,21 +861,16 @@ func runRange(c *core.Ctx) {
 					if k, isC := e.(*ssa.Const); isC && k.Value != nil && k.Value.String() == "true" {
 						trueBlocks = append(trueBlocks, v.Block().Preds[i])
 					} else if !isC {
-						ok, msg = false, "returns a computed value"
+						// `return err == nil && start == size`: the computed operand is true only when the parsed
+						// start equals the size
+						if bo, isB := e.(*ssa.BinOp); !isB || !startEqSize(bo, sizeParam) {
+							ok, msg = false, "returns a computed value"
+						}
 					}
 				}
 			case *ssa.BinOp:
 				// `return start == size`
-				good := false
-				if v.Op == token.EQL {
-					for _, pair := range [][2]ssa.Value{{v.X, v.Y}, {v.Y, v.X}} {
-						if pair[0] == ssa.Value(sizeParam) {
-							if pc, idx := an.CallOf(pair[1]); pc != nil && idx == 0 && (an.IsFunc(pc, "strconv", "ParseInt") || an.IsFunc(pc, "strconv", "ParseUint") || an.IsFunc(pc, "strconv", "Atoi")) {
-								good = true
-							}
-						}
-					}
-				}
+				good := startEqSize(v, sizeParam)
 				if !good {
 					ok, msg = false, "returns a computed value that is not the equality of the parsed start and the size"
 				}
